@@ -197,12 +197,12 @@ def run_shard(desc, acc):
             run_large(acc, {"root": root, "ctcs": []}, f"deep-chain-{depth}")
     # names that differ only in letter case, with parallel constraints (in one model and in two models
     # exported one after the other)
-    for j in range(6):
+    for j in range(24):
         if j % n == i:
             r = rand.rng(seed, "c10case", j)
-            base = rand.rand_model(r, r.randint(4, 9), group_kinds=("alternative", "or", "mutex"))
+            base = rand.rand_model(r, r.randint(5, 9), group_kinds=("alternative", "or", "mutex"), solitary_kinds=("optional", "optional", "mandatory"))
             nm = S.feature_names(base)
-            a, b, c = nm[1], nm[2], nm[0]
+            a, b, c = nm[1], nm[2], nm[-1] if len(nm) > 3 else nm[0]   # c: a non-root target when there is one
             twin = a.swapcase()
             if twin in nm or twin == a:
                 continue
